@@ -1174,10 +1174,15 @@ func (a *analysis) callAccesses(fi *fnInfo, st relState, ins ssa.Instruction, c 
 		return
 	}
 	name := ""
+	isMethod := false
 	if c.IsInvoke() {
 		name = c.Method.Name()
 	} else if f := c.StaticCallee(); f != nil {
 		name = f.Name()
+		if i := strings.Index(name, "["); i > 0 { // instantiated generic: Push[*T]
+			name = name[:i]
+		}
+		isMethod = f.Signature.Recv() != nil || strings.HasPrefix(f.String(), "(")
 	}
 	args := c.Args
 	if c.IsInvoke() {
@@ -1189,13 +1194,13 @@ func (a *analysis) callAccesses(fi *fnInfo, st relState, ins ssa.Instruction, c 
 	for i, arg := range args {
 		if k := a.guardedLoad(arg); k != "" {
 			// receiver (first argument of a method call) or plain argument
-			isRecv := i == 0 && !c.IsInvoke() && c.StaticCallee() != nil && c.StaticCallee().Signature.Recv() != nil
+			isRecv := i == 0 && !c.IsInvoke() && isMethod
 			emit(k, isRecv && a.mutators[name], "arg-"+name)
 			continue
 		}
 		if fa, ok := arg.(*ssa.FieldAddr); ok && !baseFresh(fa) {
 			for _, k := range a.addrTargets(fa) {
-				isRecv := i == 0 && !c.IsInvoke() && c.StaticCallee() != nil && c.StaticCallee().Signature.Recv() != nil
+				isRecv := i == 0 && !c.IsInvoke() && isMethod
 				if isRecv {
 					emit(k, a.mutators[name], "addr-recv-"+name)
 				} else {
@@ -1618,6 +1623,12 @@ func main() {
 	}
 	sort.Slice(unres, func(i, j int) bool { return unres[i][0] < unres[j][0] })
 
+	written := map[string]bool{} // fields with at least one write site
+	for _, o := range accs {
+		if o.Write {
+			written[o.Field] = true
+		}
+	}
 	var al []*accessOut
 	for _, o := range accs {
 		o.Guard = guards[o.Field]
@@ -1632,6 +1643,7 @@ func main() {
 				o.OK = o.OK && has(g, true)
 			}
 		} else {
+			o.OK = !written[o.Field] // nobody writes it: reads need no lock
 			for _, g := range o.Guard {
 				o.OK = o.OK || has(g, true) || has(g, false)
 			}
